@@ -22,6 +22,9 @@ Binding A (spec -> code):
     and RootWalk transitions on FRESH node trees (no attribute / namespace node exists before the expression
     reaches it; results are projected only after the evaluation).
   * text / tail chunks range over {None, '', 't'} ('' set programmatically: parsers never produce it).
+  * the NodeOps trees are rendered EQUAL-VALUED (every text 'x', attribute values '1' / '', comments / PIs 'c':
+    strings CPython shares) and have childless elements carrying attributes / namespace nodes; nodes are
+    recognised by object identity and by their place in parent.children, never by content.
 Binding B (code -> spec): see TraceTreeBuild.tla.
 Second oracle for the SPEC (never for the code): libxml2 (lxml .xpath) -- document order of //node(),
 string(.) of the document and of every element, attribute / namespace counts; disagreement = exit 2.
@@ -109,12 +112,13 @@ PATHS_FULL = dict(AbsPaths={"//*", "//@*", "//text()"}, RelPaths={"*", "@*", "./
 NO_CONFIGS = {
     'quick': [
         # comments as children, PIs as lxml document-level siblings (thorough: both kinds everywhere)
-        ('ops2', dict(MaxItems=2, ItemKinds={"e", "c"}, TextOpts={True}, TailOpts={True}, AttrCounts={1},
+        # no element text: LEAF elements (and a childless root) carry attributes / namespace nodes; text nodes are tails
+        ('ops2', dict(MaxItems=2, ItemKinds={"e", "c"}, TextOpts={False}, TailOpts={True}, AttrCounts={2},
                       DeclOpts={fs({"p"})}, NsArgs={E}, MaxSibs=1, SibKinds={"p"},
                       Operands=OPERANDS - {"all", "top", "last"}, MaxSteps=2, **PATHS, **ALLCFG)),
     ],
     'thorough': [
-        ('ops2', dict(MaxItems=2, ItemKinds={"e", "c"}, TextOpts={True}, TailOpts={True}, AttrCounts={1},
+        ('ops2', dict(MaxItems=2, ItemKinds={"e", "c"}, TextOpts={False}, TailOpts={True}, AttrCounts={2},
                       DeclOpts={fs({"p"})}, NsArgs={E}, MaxSibs=1, SibKinds={"c", "p"}, Operands=OPERANDS, MaxSteps=2,
                       **PATHS_FULL, **ALLCFG)),
         ('ops3', dict(MaxItems=3, ItemKinds={"e", "c", "p"}, TextOpts={True}, TailOpts={True}, AttrCounts={1},
@@ -134,8 +138,12 @@ NSURI = {'p': 'urn:P', 'q': 'urn:Q', 'xml': XMLNS, '': 'urn:D'}
 class Built:
     """A real xml.etree / lxml tree made from one abstract input, and the call arguments."""
 
-    def __init__(self, cfg: dict, tree: dict):
+    def __init__(self, cfg: dict, tree: dict, samevals: bool = False):
+        """samevals: EQUAL-VALUED rendering (every text / tail 'x', attribute values '1' and '', every comment and
+        PI content 'c'): CPython shares such strings, so node identity must not be confused with value identity.
+        Nodes are then recognised by object identity and by their place in parent.children only."""
         self.cfg, self.tree = cfg, tree
+        self.samevals = samevals
         self.variant = cfg['variant']
         n = tree['n']
         par, knd, txt, tl, nat, decl = (tree[k] for k in ('par', 'knd', 'txt', 'tl', 'nat', 'decl'))
@@ -155,18 +163,19 @@ class Built:
             def mk(i, parent_obj):
                 k = knd[i - 1]
                 if k == 'e':
-                    attrib = {f'x{j}': f'v{i}_{j}' for j in range(1, nat[i - 1] + 1)}
+                    attrib = {f'x{j}': (('1', '')[(j - 1) % 2] if samevals else f'v{i}_{j}') for j in range(1, nat[i - 1] + 1)}
                     o = ET.Element('a' if i % 2 else 'b', attrib) if parent_obj is None else \
                         ET.SubElement(parent_obj, 'a' if i % 2 else 'b', attrib)
                     if txt[i - 1]:
-                        o.text = '' if etx[i - 1] else f't{i}'
+                        o.text = '' if etx[i - 1] else 'x' if samevals else f't{i}'
                     for c in kids[i]:
                         mk(c, o)
                 else:
-                    o = ET.Comment(f'c{i}') if k == 'c' else ET.ProcessingInstruction('p', f'p{i}')
+                    o = ET.Comment('c' if samevals else f'c{i}') if k == 'c' else \
+                        ET.ProcessingInstruction('p', 'c' if samevals else f'p{i}')
                     parent_obj.append(o)
                 if tl[i - 1]:
-                    o.tail = '' if etl[i - 1] else f'l{i}'
+                    o.tail = '' if etl[i - 1] else 'x' if samevals else f'l{i}'
                 self.objs[i] = o
                 return o
             self.root = mk(1, None)
@@ -180,17 +189,19 @@ class Built:
                     for pfx in sorted(decl[i - 1]):
                         s += f' xmlns="urn:d{i}"' if pfx == '' else f' xmlns:{pfx}="urn:{pfx}{i}"'
                     for j in range(1, nat[i - 1] + 1):
-                        s += f' x{j}="v{i}_{j}"'
-                    s += '>' + (f't{i}' if txt[i - 1] and not etx[i - 1] else '')
+                        s += f' x{j}="{("1", "")[(j - 1) % 2]}"' if samevals else f' x{j}="v{i}_{j}"'
+                    s += '>' + (('x' if samevals else f't{i}') if txt[i - 1] and not etx[i - 1] else '')
                     s += ''.join(ser(c) for c in kids[i])
                     s += '</' + ('a' if i % 2 else 'b') + '>'
                 elif k == 'c':
-                    s = f'<!--c{i}-->'
+                    s = '<!--c-->' if samevals else f'<!--c{i}-->'
                 else:
-                    s = f'<?p p{i}?>'
-                return s + (f'l{i}' if tl[i - 1] and not etl[i - 1] else '')
+                    s = '<?p c?>' if samevals else f'<?p p{i}?>'
+                return s + (('x' if samevals else f'l{i}') if tl[i - 1] and not etl[i - 1] else '')
 
             def sib(kind, j):
+                if samevals:
+                    return '<!--c-->' if kind == 'c' else '<?p c?>'
                 return f'<!--sc{j}-->' if kind == 'c' else f'<?p sp{j}?>'
             self.text = ''.join(sib(k, j + 1) for j, k in enumerate(tree['pre'])) + ser(1) + \
                 ''.join(sib(k, 101 + j) for j, k in enumerate(tree['post']))
@@ -213,6 +224,7 @@ class Built:
             for j, o in enumerate(self.root.itersiblings(), 101):
                 self.sibs[j] = o
         self.obj2item = {id(o): i for i, o in self.objs.items()}
+        self.obj2sib = {id(o): j for j, o in self.sibs.items()}
         self.arg = self.root if cfg['rootarg'] == 'elem' else self.doc
         ns = cfg['nsarg']
         self.namespaces = {p: NSURI[p] for p in sorted(ns)} if ns else None
@@ -270,7 +282,11 @@ class Projection:
             elif k in ('ns', 'a'):
                 par = nd.parent
                 d = (k, built.obj2item.get(id(par.value), -1) if par is not None else -1, None)
-            elif k == 't' and nd.string_value == '':
+            elif k in ('c', 'p') and (id(nd.value) in built.obj2item or id(nd.value) in built.obj2sib):
+                # comment / PI nodes wrap the tree object: recognised by object identity
+                d = (k, built.obj2item[id(nd.value)], None) if id(nd.value) in built.obj2item else \
+                    ('s' + k, 0, built.obj2sib[id(nd.value)])
+            elif k == 't' and (nd.string_value == '' or built.samevals):
                 # an empty text chunk has no content literal: it is the text of its parent when it is the first
                 # child, else the tail of the element / comment / PI node right before it in parent.children
                 par = nd.parent
@@ -287,7 +303,8 @@ class Projection:
                         d = ('l', built.obj2item.get(id(prev.value), -1), None)
                     elif pk in ('c', 'p'):
                         m = _TOK.fullmatch(prev.string_value or '')
-                        d = ('l', int(m.group(2)) if m and m.group(1) == pk else -1, None)
+                        d = ('l', built.obj2item[id(prev.value)] if id(prev.value) in built.obj2item else
+                             int(m.group(2)) if m and m.group(1) == pk else -1, None)
                     else:
                         d = ('t', -1, None)
             else:
@@ -650,7 +667,7 @@ def ops_tree_worker(job):
     (inp, dseq, dpar, opnds, states, init_sid, out_edges) = job
     cfg = dict(variant=inp['variant'], rootarg=inp['rootarg'], fragment=inp['fragment'], nsarg=inp['nsarg'])
     tree = {k: inp[k] for k in ('n', 'par', 'knd', 'txt', 'tl', 'etx', 'etl', 'nat', 'decl', 'pre', 'post')}
-    built = Built(cfg, tree)
+    built = Built(cfg, tree, samevals=True)     # equal-valued content: identity is the node, not its value
     stats = dict(transitions=0, evaluations=0, nontrivial=0, skipped_trees=0)
     fails: dict = {}
     from elementpath import XPathContext
@@ -1327,7 +1344,7 @@ def replay(rec: dict) -> int:
         return 0
     if case['kind'] == 'ops' and case.get('sub') == 'raw':
         from elementpath import XPathContext
-        built = Built(case['cfg'], case['tree'])
+        built = Built(case['cfg'], case['tree'], samevals=True)
         exp_desc = [tuple(x) for x in case['dseq']]
         M = len(exp_desc)
 
@@ -1366,7 +1383,7 @@ def replay(rec: dict) -> int:
         return 0
     if case['kind'] == 'ops' and case.get('sub') in ('path', 'rootwalk', 'rootwalk_ctx'):
         from elementpath import XPathContext
-        built = Built(case['cfg'], case['tree'])
+        built = Built(case['cfg'], case['tree'], samevals=True)
         exp_desc = [tuple(x) for x in case['dseq']]
         rank_of_desc = {x: j for j, x in enumerate(exp_desc, 1)}
         v = case['parser']
@@ -1421,7 +1438,7 @@ def replay(rec: dict) -> int:
     if case['kind'] == 'ops':
         import elementpath
         from elementpath import XPathContext
-        built = Built(case['cfg'], case['tree'])
+        built = Built(case['cfg'], case['tree'], samevals=True)
         root_node = XPathContext(built.arg, built.namespaces, fragment=built.fragment).root
         pr = Projection(built, root_node)
         exp_desc = [tuple(x) for x in case['dseq']]
